@@ -4,6 +4,7 @@ import (
 	"encoding/json"
 	"fmt"
 	"os"
+	"path/filepath"
 	"runtime/debug"
 	"strings"
 
@@ -54,6 +55,9 @@ func guarded(name string, f func() interface{}) (res map[string]interface{}) {
 	defer func() {
 		if r := recover(); r != nil {
 			st := string(debug.Stack())
+			if cp, ok := r.(cliPanic); ok {
+				st = cp.stack // the command died in its own process: its stack names the site
+			}
 			res = map[string]interface{}{"pass": name, "panic": fmt.Sprint(r), "site": panicSite(st), "frames": cocaFrames(st)}
 		}
 	}()
@@ -105,5 +109,26 @@ func passesFamily(c map[string]json.RawMessage) (interface{}, error) {
 	out = append(out, guarded("todo", func() interface{} {
 		return todo.NewTodoApp().AnalysisPath(dir, []string{".java"})
 	}))
+	if boolean(c, "cli") {
+		// the commands of the same passes, each in a fresh process (exit status: a panic kills the command); the refactoring
+		// command rewrites the tree and runs last
+		work, err := newWork()
+		if err != nil {
+			return nil, err
+		}
+		defer os.RemoveAll(work)
+		conf := filepath.Join(work, "move.config")
+		_ = os.WriteFile(conf, []byte(""), 0644)
+		for _, args := range [][]string{{"analysis", "-p", dir}, {"bs", "-p", dir, "-s", "type"}, {"api", "-f", "-p", dir}, {"todo", "-p", dir},
+			{"refactor", "-m", conf, "-p", dir, "-d", ""}} {
+			a := args
+			out = append(out, guarded("coca "+a[0], func() interface{} {
+				if _, err := cocaCli(work, a...); err != nil {
+					panic(err.Error())
+				}
+				return true
+			}))
+		}
+	}
 	return map[string]interface{}{"passes": out}, nil
 }
